@@ -165,10 +165,13 @@ func runC19(o *Out) {
 			gts.Feature{Key: k, Loc: locs[(ki+3)%len(locs)], Props: gts.Props{{"note", "gene"}, {"product", "abc", "abc"}, {"gene", "zzz"}, {"gene", "abc"}}},
 			// a value that occurs only in the SECOND entry carrying its name
 			gts.Feature{Key: k, Loc: locs[ki%len(locs)], Props: gts.Props{{"note", "first"}, {"gene", "g1"}, {"note", "zzz", "x y"}}},
+			// every value empty (a toggle qualifier, an empty quoted value): the empty
+			// string is a value like any other for a regexp that matches it
+			gts.Feature{Key: k, Loc: locs[(ki+1)%len(locs)], Props: gts.Props{{"pseudo", ""}, {"note", ""}}},
 		)
 	}
 	// selector strings assembled from the alphabets and a regexp fragment
-	pats := []string{"", "a", "abc", "^a", "c$", "^abc$", "a.c", "x y", ".", "gene", "zzz", "("}
+	pats := []string{"", "a", "abc", "^a", "c$", "^abc$", "a.c", "x y", ".", "gene", "zzz", "(", "^$"}
 	var sels []string
 	for _, k := range append([]string{""}, keys...) {
 		sels = append(sels, k, k+"/", k+"//")
@@ -256,6 +259,59 @@ func runC19(o *Out) {
 			}
 		}
 		o.Run("strand", true, "loc_strand", locSx(l))
+	}
+	// strands of nested multi-part locations: a part lying on both strands makes
+	// the whole lie on both, at any depth
+	rg := func(a, b int) gts.Location { return gts.Range(a, b) }
+	cp := func(l gts.Location) gts.Location { return gts.Complemented{Location: l} }
+	nested := []gts.Location{
+		gts.Ordered{gts.Joined{rg(0, 3), cp(rg(4, 7))}, rg(8, 9)},
+		gts.Joined{gts.Ordered{cp(rg(0, 3)), rg(4, 7)}, rg(8, 9)},
+		gts.Ordered{gts.Joined{rg(0, 3), cp(rg(4, 7))}, cp(rg(8, 9))},
+		gts.Joined{rg(0, 1), gts.Ordered{gts.Joined{cp(rg(2, 3)), rg(4, 5)}, rg(6, 7)}},
+		gts.Ordered{gts.Joined{rg(0, 3), rg(4, 7)}, rg(8, 9)},
+		gts.Ordered{gts.Joined{cp(rg(0, 3)), cp(rg(4, 7))}, cp(rg(8, 9))},
+		gts.Ordered{gts.Joined{cp(rg(0, 3)), cp(rg(4, 7))}, rg(8, 9)},
+		gts.Joined{gts.Ordered{rg(0, 1)}, gts.Ordered{gts.Joined{rg(2, 3), cp(rg(4, 5))}}},
+	}
+	var strandOf func(l gts.Location) string
+	strandOf = func(l gts.Location) string {
+		var parts []gts.Location
+		switch v := l.(type) {
+		case gts.Complemented:
+			return "rev"
+		case gts.Joined:
+			parts = v
+		case gts.Ordered:
+			parts = v
+		default:
+			return "fwd"
+		}
+		f, r := false, false
+		for _, e := range parts {
+			switch strandOf(e) {
+			case "fwd":
+				f = true
+			case "rev":
+				r = true
+			default:
+				f, r = true, true
+			}
+		}
+		if f && r {
+			return "both"
+		} else if r {
+			return "rev"
+		}
+		return "fwd"
+	}
+	for _, l := range append(nested, family(8, false)...) {
+		o.Run("strand-nested", true, "loc_strand", locSx(l))
+		f := gts.Feature{Key: "f", Loc: l}
+		want := strandOf(l)
+		if gts.ForwardStrand(f) != (want == "fwd") || gts.ReverseStrand(f) != (want == "rev") {
+			o.Violate("strand-filter", join("loc_strand", locSx(l)), fmt.Sprintf("want %s, forward filter %v, reverse filter %v", want, gts.ForwardStrand(f), gts.ReverseStrand(f)))
+		}
 	}
 	// Filter returns exactly the accepted features, in order, unaltered
 	for _, p := range atoms {
